@@ -354,7 +354,8 @@ Definition import_one (s : state) (c : tree) : state :=
                             match ks with [] => [] | k :: ks' => (c, k, i) :: go (S i) ks' end) 0 (t_kids c)) s1 in
     let s3 := (fix go (i : nat) (vs : list nat) (s : state) :=
                  match vs with [] => s | v :: vs' => go (S i) vs' (add_arg c i v s) end) 0 (t_args c) s2 in
-    fold_left (fun s v => if memn v (vals (vis s)) then s else add_val v s) (t_res c :: t_args c) s3.
+    (* owned records: result value, task value, argument values *)
+    fold_left (fun s v => if memn v (vals (vis s)) then s else add_val v s) (t_res c :: t_task c :: t_args c) s3.
 
 Definition step_event (g : cfg) (s : state) (e : event) : state :=
   match e with
